@@ -12,9 +12,9 @@ use std::{
     panic::{self, AssertUnwindSafe},
 };
 
-mod pure;
-mod conn;
-mod node;
+pub mod pure;
+pub mod conn;
+pub mod node;
 
 pub fn hex(b: &[u8]) -> String {
     let mut s = String::with_capacity(b.len() * 2 + 1);
